@@ -234,9 +234,10 @@ func c03PathPred(x Sx) fsutil.FilterFunc {
 }
 
 func c03Filter(x Sx) fsutil.FilterFunc {
-	if len(x.L) != 3 {
+	if len(x.L) != 3 && len(x.L) != 4 {
 		return nil
 	}
+	exact := len(x.L) == 4 // reject the listed paths only (replay of a witness; never generated)
 	var rej []string
 	for _, p := range x.L[0].L {
 		rej = append(rej, p.Str())
@@ -244,7 +245,7 @@ func c03Filter(x Sx) fsutil.FilterFunc {
 	ua, ga := uint32(x.L[1].U64()), uint32(x.L[2].U64())
 	return func(p string, st *types.Stat) bool {
 		for _, q := range rej {
-			if p == q || strings.HasPrefix(p, q+"/") {
+			if p == q || (!exact && strings.HasPrefix(p, q+"/")) {
 				return false
 			}
 		}
